@@ -362,7 +362,11 @@ def resolve (env : Env) (ann : Str) (unknownPos : Pos) (typeStr : Str) (orig : T
 /-- `_resolve_toplevel`: keep the C type of the node -/
 def resolveToplevel (env : Env) (ann : Str) (unknownPos : Pos) (typeStr : Str) (orig : Ty) : M (Ty × List Warning) := do
   let (t, ws) ← resolve env ann unknownPos typeStr orig
-  pure (t.setInfo { t.info with ctype := orig.info.ctype, cctype := orig.info.cctype }, ws)
+  let t1 := t.setInfo { t.info with ctype := orig.info.ctype, cctype := orig.info.cctype }
+  -- `if not result.resolved and result.ctype is None and result.gtype_name is None: result.ctype = type_str`
+  -- (a type made from an annotation string never has a gtype_name)
+  let t2 := if !t1.resolved && t1.info.ctype.isNone then t1.setInfo { t1.info with ctype := some typeStr } else t1
+  pure (t2, ws)
 
 /-! ### validity predicates of the transformer -/
 
@@ -603,6 +607,8 @@ structure DirOut where
 
 /-- `if annotated_direction is not None and annotated_direction != node.direction: ...` -/
 def dirStep (n : Node) (a : Anns) (ty1 : Ty) : DirOut :=
+  -- `if isinstance(node, ast.Return): pass`: direction annotations are ignored on return values
+  if n.isRet then ⟨n.dir, n.callerAllocates, n.transfer⟩ else
   match annotatedDir a with
   | some d =>
     if d != n.dir then
@@ -616,6 +622,18 @@ structure NullOut where
   optional : Bool
   warnings : List Warning
   deriving Repr
+
+/-- `OPT_NOT_OPTIONAL in not_annotation` -/
+def notOptionalAnn (a : Anns) : Bool :=
+  match a.not_ with
+  | some o => o.contains (G Gen.ParamAnn.optNotOptional)
+  | none => false
+
+/-- a `(not ...)` annotation that is not `(not optional)`: `(not nullable)`, a bare or unknown `(not)` -/
+def notNullableAnn (a : Anns) : Bool :=
+  match a.not_ with
+  | some o => !(o.contains (G Gen.ParamAnn.optNotOptional))
+  | none => false
 
 /-- the nullable / optional / allow-none / not block, given the answer `p` of `_is_pointer_type` -/
 def nullPure (part : Str) (n : Node) (a : Anns) (dir : Dir) (ty2 : Ty) (p : Bool) : NullOut :=
@@ -638,8 +656,9 @@ def nullPure (part : Str) (n : Node) (a : Anns) (dir : Dir) (ty2 : Ty) (p : Bool
   let nul3 :=
     if dir != .out && (ty2.giname == some (G "Gio.AsyncReadyCallback") || ty2.giname == some (G "Gio.Cancellable"))
     then true else r3.1
-  let fin : Bool × Bool := if a.not_.isSome then (false, true) else (nul3, r1.2.1)
-  { nullable := fin.1, notNullable := fin.2, optional := r3.2.1, warnings := r1.2.2 ++ r2.2 ++ r3.2.2 }
+  let fin : Bool × Bool := if notNullableAnn a then (false, true) else (nul3, r1.2.1)
+  { nullable := fin.1, notNullable := fin.2, optional := if notOptionalAnn a then false else r3.2.1,
+    warnings := r1.2.2 ++ r2.2 ++ r3.2.2 }
 
 /-- `_is_pointer_type` is only evaluated when (nullable) or the last branch of (allow-none) needs it -/
 def needsPointerTest (n : Node) (a : Anns) (dir : Dir) : Bool :=
@@ -769,7 +788,8 @@ def callbackStep (c : Callable) (i : Nat) (part : Str) (tag : Option Anns) : M (
           | none => throw (.fatal (G "can't find parameter referenced by destroy"))
           | some j =>
             let c' := c1.setAll i (fun p => { p with destroy := some d, scope := some (G Gen.ParamAnn.scopeNotified) })
-            pure (c'.setAll j (fun q => { q with scope := some (G Gen.ParamAnn.scopeNotified) }))
+            -- `if destroy_param.scope is None: destroy_param.scope = PARAM_SCOPE_NOTIFIED`
+            pure (c'.setAll j (fun q => if q.scope.isNone then { q with scope := some (G Gen.ParamAnn.scopeNotified) } else q))
         | _ => pure c1
       match a.closure with
       | some [cl] =>
@@ -976,8 +996,41 @@ def pass3Nullable : List Node → List Node → M (List Node)
       | none => .error (.raises (G "ValueError: Unknown argument"))
     | none => pass3Nullable rest acc
 
-/-- `_pass3_callable_callbacks` then `_pass3_callable_throws` -/
-def pass3 (c : Callable) : M Callable := do
+/-- `length_param_name = check(...)` on a top-level array type -/
+def Ty.checkLength (ok : Str → Bool) : Ty → Ty
+  | .array k e z s (some l) i => .array k e z s (if ok l then some l else none) i
+  | t => t
+
+/-- the names `_pass3_callable_references` accepts: those of `parameters`, minus a trailing `GError**` -/
+def refNames (c : Callable) : List Str :=
+  match c.params.getLast? with
+  | some l =>
+    if l.ty.info.ctype == some (G "GError**") then (c.params.map (fun p => p.name)).dropLast
+    else c.params.map (fun p => p.name)
+  | none => c.params.map (fun p => p.name)
+
+/-- `check(name, what)` -/
+def chkRef (names : List Str) (o : Option Str) : Option Str :=
+  match o with
+  | some nm => if names.contains nm then some nm else none
+  | none => none
+
+def fixRefs (names : List Str) (p : Node) : Node :=
+  { p with closure := chkRef names p.closure, destroy := chkRef names p.destroy,
+           ty := p.ty.checkLength (fun l => names.contains l) }
+
+/-- `_pass3_callable_references`: a `(closure)`, `(destroy)` or `(array length=)` reference to a name that
+    is not in `parameters` (the instance parameter) or is the trailing `GError**` is dropped (with a
+    warning, which comes after the start of pass 3 and is not part of the comparison) -/
+def pass3References (c : Callable) : Callable :=
+  let names := refNames c
+  { c with inst := c.inst.map (fixRefs names),
+           params := c.params.map (fixRefs names),
+           ret := { c.ret with ty := c.ret.ty.checkLength (fun l => names.contains l) } }
+
+/-- `_pass3_callable_references`, `_pass3_callable_callbacks`, then `_pass3_callable_throws` -/
+def pass3 (c0 : Callable) : M Callable := do
+  let c := pass3References c0
   let ps1 := pass3WellKnown c.params
   let ps2 := pass3Pair ps1 0 none ps1
   -- the third loop reads `param.closure_name` while iterating the same (mutated) objects
@@ -1024,10 +1077,24 @@ def Callable.lateResolve (late : Late) (c : Callable) : Callable :=
   { c with inst := c.inst.map (Node.lateResolve late), params := c.params.map (Node.lateResolve late),
            ret := c.ret.lateResolve late }
 
+/-- A virtual method shares its `Parameter` objects with the callback field of the class struct it was
+    made from, and pass 3 visits that field first.  There `self` still is an ordinary parameter, so a
+    `(closure self)` survives `_pass3_callable_references` and the user-data rule of
+    `_pass3_callable_callbacks` makes `self` nullable — on the shared object, i.e. on the virtual
+    method's instance parameter too.  (Everything else that pass does is repeated by the virtual
+    method's own pass 3.) -/
+def vfuncFieldPass (c : Callable) : Callable :=
+  match c.kind, c.inst with
+  | .vfunc, some i =>
+    if c.params.any (fun p => p.closure == some i.name) && !i.notNullable then
+      { c with inst := some { i with nullable := true } }
+    else c
+  | _, _ => c
+
 /-- everything between the annotation pass and the writer -/
 def finish (late : Late) (c : Callable) (doc : Option Doc) (split : Bool) : M Callable := do
   let c0 := c.lateResolve late
-  let c1 := if split then splitInstance c0 else c0
+  let c1 := vfuncFieldPass (if split then splitInstance c0 else c0)
   checkInstanceParameter c1 doc
   let c2 ← pass3 c1
   introspectableCheck c2
